@@ -299,7 +299,16 @@ def parseStep (p : P) : Except PErr P :=
   | .goht o =>
     if t.typ == .gohtEnd then .ok (backToRoot (p.stack.length + 1) (p.next).1)
     else handleNode fuel p o (-1) 0
-  | .element e =>
+  | .element e0 =>
+    -- no line break token arrived (an inline `= @render …` / `= @children` swallows it): the element's
+    -- own line is over all the same
+    let e : Elem :=
+      if !e0.isComplete && t.typ == .indent then
+        let e := { e0 with isComplete := true }
+        let e := if Gen.selfClosedTags.contains e.tag then { e with isSelfClosing := true } else e
+        if e.isSelfClosing || p.top.kids.length > 0 then { e with disallowChildren := true } else e
+      else e0
+    let p := if !e0.isComplete && t.typ == .indent then p.setTop { p.top with head := .element e } else p
     let second (p : P) (e : Elem) : Except PErr P :=
       let t := p.peek
       match t.typ with
